@@ -162,11 +162,11 @@ def cp_struct(weights, factors):
     if np.iscomplexobj(w):          # weights are norms: a complex weight vector must still be real-valued to be canonical
         w = np.where(np.abs(w.imag) > 0, np.nan, w.real).astype(float)
     norms = [col_norms(f) for f in factors]
-    # deviation from unit norm over columns that are not (numerically) zero
+    # deviation from unit norm over columns that are not EXACTLY zero (a tiny column is still to be normalised)
     dev = 0.0
     for nn in norms:
         for v in nn:
-            if v > 1e-12:
+            if v > 0:
                 dev = max(dev, abs(v - 1.0))
     return {"weights_one_dev": qe(float(np.max(np.abs(w - 1.0))) if w.size else 0.0),
             "colnorm_dev": qe(dev),
@@ -639,7 +639,7 @@ def structure(cfg, data, dec):
         for m, f in enumerate(fs):
             proj = np.moveaxis(np.tensordot(np.asarray(f).conj().T, proj, axes=(1, m)), 0, m)
         st["core_proj_dev"] = qe(rel(np.asarray(core) - proj, data))
-        st["colnorm_dev"] = qe(max([abs(v - 1.0) for f in fs for v in col_norms(f) if v > 1e-12] + [0.0]))
+        st["colnorm_dev"] = qe(max([abs(v - 1.0) for f in fs for v in col_norms(f) if v > 0] + [0.0]))
         st["mins"] = mins([core] + list(fs))
         st["zero_factor"] = bool(any(not np.any(np.asarray(f)) for f in fs))
     elif kind == "parafac2":
@@ -823,7 +823,7 @@ def _cfg_for_spec(cfg):
             "fixed": list(cfg.get("fixed", [])), "data": cfg["data"], "sparsity": bool(cfg.get("sparsity")),
             "mask": bool(cfg.get("mask")), "nn_kind": nn_kind, "nn_list": list(nn) if nn_kind == "list" else [],
             "algorithm": cfg.get("algorithm", "none"), "stagn": bool(cfg.get("max_stagnation", 20)) if cfg["alg"] == "rand_parafac" else False,
-            "rows": list(cfg.get("rows", [])), "tenalg": cfg.get("tenalg", "core"),
+            "rows": list(cfg.get("rows", [])), "tenalg": cfg.get("tenalg", "core"), "single": cfg.get("data_dtype") == "float32",
             "sampled": bool(cfg.get("sampled", False)), "init_weights": cfg.get("init_weights", "none"),
             # a penalised fit (ridge, l1 sparsity) minimises another objective than the reconstruction error
             "penalised": bool(cfg.get("l2_reg") or cfg.get("core_sparsity") or any(x for x in (cfg.get("sparsity_coefficients") or []) if x))}
@@ -992,6 +992,33 @@ def driver_configs(tier, seed, algs=None):
                 continue
             base = dict(shape=[4, 5, 3], rank=2, data="generic", init=str(rng.choice(["svd", "random"])), normalize=True, tol=tol,
                         caps=[0, 1, 2, 3, 5, 8])
+            base.update(kw)
+            add(alg, **base)
+    # ---- fixed modes x normalisation x user start whose fixed factor is NOT normalised (the sweep must keep using the
+    #      factors as they are after every normalisation, fixed ones included)
+    for alg, kw in (("nn_parafac_hals", {"data": "nonneg", "init_kind": "nonneg"}), ("parafac", {"data": "generic"}),
+                    ("nn_parafac", {"data": "nonneg", "init_kind": "nonneg"})):
+        for fx in ([0], [1], [0, 1]):
+            add(alg, shape=[4, 5, 3], rank=2, init="user", init_weights=str(rng.choice(["none", "positive"])), normalize=True, fixed=fx,
+                tol="tiny", caps=[0, 1, 2, 3, 5, 8], **kw)
+    # ---- VALUE regimes: tiny / huge overall magnitude (relative errors and structure are scale-free), float32 storage
+    # (magnitudes whose 7th power leaves the double range are outside the domain: the NNDSVDa start of the non-negative
+    #  Tucker routines has factors AND core proportional to the data scale -- scale^(2*order+1) for order 3 -- by design)
+    for sc in (1e-20, 1e-40, 1e30):
+        for alg, kw in (("parafac", {"data": "generic", "normalize": True}), ("parafac", {"data": "generic", "linesearch": True, "caps": [0, 1, 2, 6, 7, 8, 9]}),
+                        ("nn_parafac", {"data": "nonneg"}), ("nn_parafac_hals", {"data": "nonneg"}),
+                        ("tucker", {"data": "generic", "rank": [2, 2, 2]}), ("nn_tucker", {"data": "nonneg", "rank": [2, 2, 2]}),
+                        ("parafac2", {"rows": [4, 5, 4], "shape": [3, 0, 4], "data": "generic"}),
+                        ("tr_als", {"data": "generic", "shape": [4, 3, 4], "rank": [2, 2, 2, 2], "ls_solve": "lstsq", "init": "random"}),
+                        ("constrained_parafac", {"data": "nonneg", "constraints": {"non_negative": True}}),
+                        ("cmtf", {"data": "generic"}), ("rand_parafac", {"data": "generic", "max_stagnation": 0})):
+            base = dict(shape=[4, 5, 3], rank=2, init=str(rng.choice(["svd", "random"])), tol="tiny", scale=sc, caps=[0, 1, 2, 3, 5], extreme=True)
+            base.update(kw)
+            add(alg, **base)
+    for dt, sc in (("float32", None), ("float32", 1e-4), ("float32", 1e3)):
+        for alg, kw in (("parafac", {"data": "generic"}), ("nn_parafac", {"data": "nonneg"}), ("nn_parafac_hals", {"data": "nonneg"}),
+                        ("tucker", {"data": "generic", "rank": [2, 2, 2]}), ("nn_tucker", {"data": "nonneg", "rank": [2, 2, 2]})):
+            base = dict(shape=[4, 5, 3], rank=2, init=str(rng.choice(["svd", "random"])), tol="tiny", scale=sc, data_dtype=dt, caps=[0, 1, 2, 3, 5], extreme=True)
             base.update(kw)
             add(alg, **base)
     # ---- complex-valued data (supported by CP-ALS and HOOI: conjugate transposes everywhere)
@@ -1204,6 +1231,9 @@ def objseq_cases(tier, seed):
         cases.append({"id": "cpregm-%03d" % k, "kind": "cp_regressor", "seed": int(rng.randint(0, 10**6)),
                       "shape": [[4, 3], [3, 2, 3], [3]][k % 3], "samples": int(rng.randint(10, 40)), "rank": int(rng.randint(1, 4)),
                       "reg": [1.0, 50.0, 10.0][k % 3], "yshape": [[3, 2], [2], [2, 3]][k % 3]})
+        cases.append({"id": "cpregh-%03d" % k, "kind": "cp_regressor", "seed": int(rng.randint(0, 10**6)),
+                      "shape": [[3, 2], [4], [2, 2, 2]][k % 3], "samples": int(rng.randint(14, 40)), "rank": int(rng.randint(1, 4)),
+                      "reg": [0.0, 1.0, 0.1][k % 3], "yshape": [[2, 3, 2], [3, 3, 3], [2, 2, 3, 2]][k % 3]})
         cases.append({"id": "tkreg-%03d" % k, "kind": "tucker_regressor", "seed": int(rng.randint(0, 10**6)),
                       "shape": [[4, 3], [3, 2, 3], [3, 4]][k % 3], "samples": int(rng.randint(8, 14)), "rank": int(rng.randint(1, 3)),
                       "reg": [0.1, 1.0, 10.0][k % 3]})
